@@ -3,6 +3,7 @@
 -/
 import ElfVerif.Props.C09
 import ElfVerif.Props.C16
+import ElfVerif.Lemmas.SymVerComplete
 namespace Elf.C13
 
 /-- what `findAux` returns is an aux record of the iterated chain with the wanted index -/
@@ -203,5 +204,104 @@ theorem ver_records_wiring (f : ElfBytes) (shdrs : Table SectionHeader) (sh : Se
             obtain ⟨h1, h2⟩ := h
             subst h1 h2
             exact ⟨rfl, rfl, rfl, rfl, ⟨r, rfl, hb⟩, ⟨ss, r2, rfl, hr2, hsb⟩⟩
+
+/-! ## Completeness on well-formed chains, in any forward layout
+
+  `NeedChain` / `RecChain` / `AuxChain` (Lemmas/SymVerComplete.lean) say what a well-formed
+  `.gnu.version_r` / `.gnu.version_d` section is: `sh_info` records, each readable at its offset,
+  linked by `vn_next`/`vd_next` (non-zero except possibly on the last), each pointing to its
+  auxiliary chain by `vn_aux`/`vd_aux` with `vn_cnt`/`vd_cnt` entries linked by `vna_next`/`vda_next`.
+  Nothing is assumed about where the records lie relative to each other — interleaved, all headers
+  first, gaps, out of order — only that the offsets stay below 2^64. -/
+
+/-- **Requirement**: on a well-formed Verneed chain the answer for symbol `i` is the first auxiliary
+    record in traversal order whose `vna_other` equals the low 15 bits of `versym[i]` — file from its
+    Verneed record, name/hash/flags from the aux record, hidden = bit 15 — and `None` when no record
+    has that index (local 0 / global 1 included). -/
+theorem get_requirement_complete (t : SymbolVersionTable) (i verNdx : Nat) (strs : Slice)
+    (le : Bool) (cls : Class) (data : Slice) (count : Nat) (recs : List (VerNeed × List VerNeedAux))
+    (hv : t.verneeds = some (⟨le, cls, count, data, 0⟩, strs)) (hne : data.isEmpty = false)
+    (hidx : t.versionIds.get i = .ok verNdx)
+    (hc : NeedChain le cls data count 0 recs) :
+    t.getRequirement i =
+      match firstReq (verNdx % 2 ^ 15) recs with
+      | none => .ok none
+      | some (vn, vna) =>
+        (strGet strs vn.vn_file).bind fun file =>
+        (strGet strs vna.vna_name).bind fun name =>
+        .ok (some ⟨file, name, vna.vna_hash, vna.vna_flags, VersionIndex.isHidden verNdx⟩) := by
+  have hix : VersionIndex.index verNdx = verNdx % 2 ^ 15 := by
+    unfold VersionIndex.index
+    rw [show Abi.VER_NDX_VERSION = 2 ^ 15 - 1 from rfl, Nat.and_two_pow_sub_one_eq_mod]
+  unfold SymbolVersionTable.getRequirement
+  rw [hv]
+  show (t.versionIds.get i).bind _ = _
+  rw [hidx]
+  show reqLoop strs verNdx (count + 1) ⟨le, cls, count, data, 0⟩ = _
+  rw [← hix]
+  exact reqLoop_complete strs verNdx le cls data hne count 0 (count + 1) recs hc (by omega)
+
+/-- **Definition**: on a well-formed Verdef chain the answer for symbol `i` is the first definition
+    in traversal order with `vd_ndx` = low 15 bits of `versym[i]` (hash, flags, hidden = bit 15),
+    and its names iterator is that record's aux chain; `None` when no definition has that index. -/
+theorem get_definition_complete (t : SymbolVersionTable) (i verNdx : Nat) (strs : Slice)
+    (le : Bool) (cls : Class) (data : Slice) (count : Nat) (recs : List (VerDef × VerIter))
+    (hv : t.verdefs = some (⟨le, cls, count, data, 0⟩, strs)) (hne : data.isEmpty = false)
+    (hidx : t.versionIds.get i = .ok verNdx)
+    (hc : RecChain VerDef.ep VerDef.vd_cnt VerDef.vd_aux VerDef.vd_next le cls data count 0 recs) :
+    t.getDefinition i =
+      .ok ((firstDef (verNdx % 2 ^ 15) recs).map fun x =>
+        ⟨x.1.vd_hash, x.1.vd_flags, x.2, strs, VersionIndex.isHidden verNdx⟩) := by
+  have hix : VersionIndex.index verNdx = verNdx % 2 ^ 15 := by
+    unfold VersionIndex.index
+    rw [show Abi.VER_NDX_VERSION = 2 ^ 15 - 1 from rfl, Nat.and_two_pow_sub_one_eq_mod]
+  unfold SymbolVersionTable.getDefinition
+  rw [hv]
+  show (t.versionIds.get i).bind _ = _
+  rw [hidx]
+  show defLoop strs verNdx (count + 1) ⟨le, cls, count, data, 0⟩ = _
+  rw [← hix]
+  exact defLoop_complete strs verNdx le cls data hne count 0 (count + 1) recs hc (by omega)
+
+/-- **Ordered names**: the names of a definition are the strings at `vda_name` of its aux chain, in
+    chain order. -/
+theorem definition_names_complete (d : SymbolDefinition) (le : Bool) (cls : Class) (data : Slice)
+    (count off : Nat) (auxs : List VerDefAux)
+    (hn : d.names = ⟨le, cls, count, data, off⟩) (hne : data.isEmpty = false)
+    (hc : AuxChain VerDefAux.ep VerDefAux.vda_next le cls data count off auxs) :
+    d.collectNames = .ok (auxs.map fun a => strGet d.strtab a.vda_name) := by
+  unfold SymbolDefinition.collectNames VerIter.collectAux
+  rw [hn]
+  have := drainAux_complete VerDefAux.ep VerDefAux.vda_next le cls data hne count off (count + 1) auxs [] hc (by omega)
+  generalize drainFuel (VerIter.nextAux VerDefAux.ep VerDefAux.vda_next) (count + 1) ⟨le, cls, count, data, off⟩ [] = q at this
+  obtain ⟨q1, q2⟩ := q
+  simp only at this
+  subst this
+  simp
+
+/-- no matching record ⇒ `None` (corollaries) -/
+theorem requirement_absent (t : SymbolVersionTable) (i verNdx : Nat) (strs : Slice)
+    (le : Bool) (cls : Class) (data : Slice) (count : Nat) (recs : List (VerNeed × List VerNeedAux))
+    (hv : t.verneeds = some (⟨le, cls, count, data, 0⟩, strs)) (hne : data.isEmpty = false)
+    (hidx : t.versionIds.get i = .ok verNdx) (hc : NeedChain le cls data count 0 recs)
+    (habs : firstReq (verNdx % 2 ^ 15) recs = none) : t.getRequirement i = .ok none := by
+  rw [get_requirement_complete t i verNdx strs le cls data count recs hv hne hidx hc, habs]
+
+theorem definition_absent (t : SymbolVersionTable) (i verNdx : Nat) (strs : Slice)
+    (le : Bool) (cls : Class) (data : Slice) (count : Nat) (recs : List (VerDef × VerIter))
+    (hv : t.verdefs = some (⟨le, cls, count, data, 0⟩, strs)) (hne : data.isEmpty = false)
+    (hidx : t.versionIds.get i = .ok verNdx)
+    (hc : RecChain VerDef.ep VerDef.vd_cnt VerDef.vd_aux VerDef.vd_next le cls data count 0 recs)
+    (habs : firstDef (verNdx % 2 ^ 15) recs = none) : t.getDefinition i = .ok none := by
+  rw [get_definition_complete t i verNdx strs le cls data count recs hv hne hidx hc, habs]; rfl
+
+/- Non-vacuity: a 28-byte `.gnu.version_d` (one Verdef with `vd_ndx = 2`, `vd_cnt = 1`, `vd_aux = 20`,
+   one Verdaux) is a `RecChain` with an `AuxChain`. -/
+def exDefs : Slice := Slice.ofArray #[1,0, 0,0, 2,0, 1,0, 0x34,0x12,0,0, 20,0,0,0, 0,0,0,0,  1,0,0,0, 0,0,0,0]
+example : RecChain VerDef.ep VerDef.vd_cnt VerDef.vd_aux VerDef.vd_next true .ELF64 exDefs 1 0
+    [(⟨0, 2, 1, 0x1234, 20, 0⟩, ⟨true, .ELF64, 1, exDefs, 20⟩)] :=
+  RecChain.step 0 0 (⟨0, 2, 1, 0x1234, 20, 0⟩ : VerDef) [] (by decide) (by decide) (by decide) (Or.inl rfl) (RecChain.done _)
+example : AuxChain VerDefAux.ep VerDefAux.vda_next true .ELF64 exDefs 1 20 [⟨1, 0⟩] :=
+  AuxChain.step 0 20 (⟨1, 0⟩ : VerDefAux) [] (by decide) (by decide) (Or.inl rfl) (AuxChain.done _)
 
 end Elf.C13
